@@ -118,7 +118,7 @@ pub trait BinEncodable {
         ensures final(encoder).wf_buf(), old(encoder).wf_ptrs() ==> final(encoder).wf_ptrs(),
             final(encoder).max() == old(encoder).max(),
             final(encoder).offset >= old(encoder).offset,
-            final(encoder).ptr_prefix_of(*old(encoder)),
+            old(encoder).wf_ptrs() ==> final(encoder).ptr_prefix_of(*old(encoder)),
             old(encoder).tight() ==> final(encoder).tight(),
             final(encoder).canonical_form == old(encoder).canonical_form,
             final(encoder).name_encoding == old(encoder).name_encoding,
@@ -134,6 +134,8 @@ impl<'a> BinEncoder<'a> {
     pub open spec fn wf_buf(&self) -> bool {
         &&& self.buffer.wf()
         &&& self.offset <= self.bytes().len()
+        // every compression candidate is addressable by a 16-bit offset (asserted on insertion)
+        &&& forall|k: int| 0 <= k < self.name_pointers@.len() ==> (#[trigger] self.name_pointers@[k]).0 <= 0xFFFF
     }
     // compression-table part: every candidate starts below the logical end (temporarily false while
     // Place::replace has moved `offset` back to patch a length)
@@ -228,8 +230,10 @@ impl<'a> BinEncoder<'a> {
             final(self).offset >= old(self).offset,
             final(self).name_pointers == old(self).name_pointers,
             final(self).canonical_form == old(self).canonical_form, final(self).name_encoding == old(self).name_encoding,
+            final(self).compressed_name_count == old(self).compressed_name_count,
             old(self).tight() ==> final(self).tight(),
             forall|i: int| 0 <= i < old(self).offset ==> final(self).bytes()[i] == old(self).bytes()[i],
+            r matches Err(e) ==> (e matches ProtoError::MaxBufferSizeExceeded(_)) || (e matches ProtoError::CharacterDataTooLong { .. }),
             r is Ok ==> vp_as_ref(&char_data).len() <= 255
                 && final(self).offset == old(self).offset + 1 + vp_as_ref(&char_data).len()
                 && final(self).bytes()[old(self).offset as int] == vp_as_ref(&char_data).len()
@@ -268,15 +272,18 @@ impl<'a> BinEncoder<'a> {
 
 //%fn crates/proto/src/serialize/binary/encoder.rs :: impl<'a> BinEncoder<'a> :: slice_of
 //%contract
-        requires self.wf(), start < self.offset, end <= self.bytes().len(), start <= end
+        requires self.wf_buf(), start < self.offset, end <= self.bytes().len(), start <= end
         ensures r@ =~= self.bytes().subrange(start as int, end as int)
 //%sub1 "self.buffer.buffer()" => "vp_buf_slice(&self.buffer)" # R-shim: MaximalBuf::buffer() (`self.buffer as &'a [u8]` reborrow-cast of &mut Vec) -> view as slice
 //%end
 
 //%fn crates/proto/src/serialize/binary/encoder.rs :: impl<'a> BinEncoder<'a> :: store_label_pointer
 //%contract
-        requires old(self).wf(), start < old(self).offset, end <= old(self).bytes().len(), start <= end, end <= 0xFFFF
-        ensures final(self).wf(), final(self).max() == old(self).max(), final(self).offset == old(self).offset, final(self).bytes() == old(self).bytes(),
+        requires old(self).wf_buf(), start < old(self).offset, end <= old(self).bytes().len(), start <= end, end <= 0xFFFF
+        ensures final(self).wf_buf(), old(self).wf_ptrs() ==> final(self).wf_ptrs(),
+            final(self).max() == old(self).max(), final(self).offset == old(self).offset, final(self).bytes() == old(self).bytes(),
+            final(self).canonical_form == old(self).canonical_form, final(self).name_encoding == old(self).name_encoding,
+            final(self).compressed_name_count == old(self).compressed_name_count,
             final(self).ptr_prefix_of(*old(self)),
             final(self).name_pointers@.len() <= old(self).name_pointers@.len() + 1,
             // RFC 1035 4.1.4: a compression pointer has 14 bits; candidates at or beyond 0x3FFF are never stored
@@ -289,8 +296,7 @@ impl<'a> BinEncoder<'a> {
 
 //%fn crates/proto/src/serialize/binary/encoder.rs :: impl<'a> BinEncoder<'a> :: get_label_pointer
 //%contract
-        requires self.wf(), start < self.offset, end <= self.bytes().len(), start <= end,
-            forall|k: int| 0 <= k < self.name_pointers@.len() ==> (#[trigger] self.name_pointers@[k]).0 <= 0xFFFF,
+        requires self.wf_buf(), start < self.offset, end <= self.bytes().len(), start <= end,
         ensures true
 //%after "for (match_start, matcher) in"
                 vp_it:
@@ -302,9 +308,15 @@ impl<'a> BinEncoder<'a> {
 
 //%fn crates/proto/src/serialize/binary/encoder.rs :: impl<'a> BinEncoder<'a> :: trim
 //%contract
-        requires old(self).wf()
+        requires old(self).wf_buf()
         ensures final(self).wf(), final(self).max() == old(self).max(), final(self).offset == old(self).offset, final(self).tight(),
-            final(self).bytes() =~= old(self).bytes().subrange(0, old(self).offset as int)
+            final(self).bytes() =~= old(self).bytes().subrange(0, old(self).offset as int),
+            final(self).canonical_form == old(self).canonical_form, final(self).name_encoding == old(self).name_encoding,
+            final(self).compressed_name_count == old(self).compressed_name_count,
+            // candidates that start below the offset all survive, in order
+            (forall|k: int| 0 <= k < old(self).name_pointers@.len() ==> (#[trigger] old(self).name_pointers@[k]).0 < old(self).offset)
+                ==> final(self).name_pointers@ == old(self).name_pointers@,
+            final(self).name_pointers@.len() <= old(self).name_pointers@.len(),
 //%sub1 "self.name_pointers.retain(|&(start, _)| start < offset);" => "vp_retain_below(&mut self.name_pointers, offset);" # R-shim: Vec::retain with a pattern closure
 //%end
 }
@@ -327,7 +339,7 @@ impl BinEncodable for u8 {
     open spec fn in_place_ok() -> bool { true }
 //%fn crates/proto/src/serialize/binary/mod.rs :: impl BinEncodable for u8 :: emit
 //%contract
-        ensures final(encoder).name_pointers == old(encoder).name_pointers,
+        ensures final(encoder).name_pointers == old(encoder).name_pointers, final(encoder).compressed_name_count == old(encoder).compressed_name_count,
             match r {
                 Ok(_) => final(encoder).offset == old(encoder).offset + 1 && final(encoder).bytes()[old(encoder).offset as int] == *self
                       && final(encoder).bytes().len() == (if old(encoder).offset + 1 > old(encoder).bytes().len() { old(encoder).offset + 1 } else { old(encoder).bytes().len() as int })
@@ -342,7 +354,7 @@ impl BinEncodable for u16 {
     open spec fn in_place_ok() -> bool { true }
 //%fn crates/proto/src/serialize/binary/mod.rs :: impl BinEncodable for u16 :: emit
 //%contract
-        ensures final(encoder).name_pointers == old(encoder).name_pointers,
+        ensures final(encoder).name_pointers == old(encoder).name_pointers, final(encoder).compressed_name_count == old(encoder).compressed_name_count,
             match r {
                 Ok(_) => final(encoder).offset == old(encoder).offset + 2
                       && be16(final(encoder).bytes()[old(encoder).offset as int], final(encoder).bytes()[old(encoder).offset + 1]) == *self as int
@@ -359,7 +371,7 @@ impl BinEncodable for u32 {
     open spec fn in_place_ok() -> bool { true }
 //%fn crates/proto/src/serialize/binary/mod.rs :: impl BinEncodable for u32 :: emit
 //%contract
-        ensures final(encoder).name_pointers == old(encoder).name_pointers,
+        ensures final(encoder).name_pointers == old(encoder).name_pointers, final(encoder).compressed_name_count == old(encoder).compressed_name_count,
             match r {
                 Ok(_) => final(encoder).offset == old(encoder).offset + 4
                       && be32(final(encoder).bytes()[old(encoder).offset as int], final(encoder).bytes()[old(encoder).offset + 1],
@@ -374,7 +386,7 @@ impl BinEncodable for i32 {
     open spec fn in_place_ok() -> bool { true }
 //%fn crates/proto/src/serialize/binary/mod.rs :: impl BinEncodable for i32 :: emit
 //%contract
-        ensures final(encoder).name_pointers == old(encoder).name_pointers,
+        ensures final(encoder).name_pointers == old(encoder).name_pointers, final(encoder).compressed_name_count == old(encoder).compressed_name_count,
             match r {
                 Ok(_) => final(encoder).offset == old(encoder).offset + 4,
                 Err(e) => final(encoder).offset == old(encoder).offset && final(encoder).bytes() == old(encoder).bytes()
